@@ -74,6 +74,15 @@ Proof.
     unfold nbrs_of. apply NoDup_filter, seq_NoDup.
 Qed.
 
+Lemma blocks_biconnected : forall h, wfb h ->
+  b_fuel (blocks_st h) = false /\
+  forall b, In b (blocks h) ->
+    (exists p, b = filter p (seq 0 (bn h))) /\ bicS h (fun x => In x b).
+Proof.
+  intros h W. destruct (blocks_st_ok h W) as [F G]. split; [exact F|].
+  intros b Hb. apply G. unfold blocks in Hb. apply in_rev in Hb. exact Hb.
+Qed.
+
 (* ------------------------------------------------------------------ totality of the whole model *)
 
 Theorem model_total : forall g, is_tf (is_planar_model g).
